@@ -44,6 +44,10 @@ type Program struct {
 	clockVisiting map[*types.Var]bool
 	mutFns    map[*ssa.Function]bool
 	succCache map[*ssa.Function][]*ssa.Function
+	rootsUsed map[*ssa.Function]bool
+	auditing  bool
+	vrefs     map[*ssa.Function][]*ssa.Function
+	tinst     map[string][]*ssa.Function
 	rootReach map[*ssa.Function]bool
 	memTrans  []Trans
 	memFlow   *stateFlow
